@@ -12,7 +12,7 @@ import time
 ROOT = os.path.dirname(os.path.dirname(os.path.abspath(__file__)))
 EVIDENCE_DIR = os.path.join(ROOT, 'evidence')
 REPLAY_DIR = os.path.join(ROOT, 'replays')
-KNOWN_FILE = os.path.join(ROOT, 'known_findings.json')
+KNOWN_DIR = os.path.join(ROOT, 'known')
 
 
 def seed() -> int:
@@ -28,7 +28,7 @@ def digest(obj) -> str:
 
 
 class Known:
-    """/verif/known_findings.json, read-only at run time.
+    """/verif/known/<property>.json, read-only at run time.
 
     entries: {"property": "C02", "id": "ExpungeRecordOverwritten",
               "status": "open"|"fixed", "what": "...", "signature": {...},
@@ -41,7 +41,7 @@ class Known:
         self.open: dict[str, dict] = {}
         self.fixed: dict[str, dict] = {}
         try:
-            data = json.load(open(KNOWN_FILE))
+            data = json.load(open(os.path.join(KNOWN_DIR, prop + '.json')))
         except FileNotFoundError:
             data = {'findings': []}
         for e in data.get('findings', []):
